@@ -2,6 +2,8 @@ package c03
 
 import (
 	"bufio"
+	"crypto/sha1"
+	"encoding/base64"
 	"encoding/json"
 	"errors"
 	"fmt"
@@ -23,8 +25,8 @@ import (
 // ---------------------------------------------------------------------------------------------
 
 const (
-	// (i) every client call of a fault step ends within 2*(read+write+backend_dial+backend_read)+2 s
-	endBound = (2*(tRead+tWrite+tBackendDial+tBackendRead) + 2) * time.Second
+	// (i) every client call of a fault step ends within 2*(read+write+backend_dial+backend_read)+2 s of the
+	// case's configuration: Cfg.endBound (model.go), 12 s for backend_read 1 ... 16 s for backend_read 3
 	// ... and a call that has not ended after the no-progress limit is "wedged"
 	wedgeAfter = lab.NoProgress
 	// (ii) nominal recovery window max(breaker timeout, unhealthy window)+3 s; decided by an 8 s watchdog
@@ -48,6 +50,7 @@ type outcome struct {
 	Body    string // first bytes of a complete response body
 	Elapsed time.Duration
 	Detail  string
+	Saw100  bool // the interim response 100 Continue was received (class label only)
 }
 
 func (o outcome) String() string {
@@ -87,93 +90,200 @@ func head(method, id, xff string, extra string) string {
 	return fmt.Sprintf("%s /c03/%s HTTP/1.1\r\nHost: helios.test\r\nX-Verif-Case: %s\r\nX-Forwarded-For: %s\r\n%s\r\n", method, id, id, xff, extra)
 }
 
-// get performs one complete bodiless exchange on a fresh connection and waits for its end.
+// get performs one complete plain GET exchange on a fresh connection and waits for its end.
 func get(addr, id, xff string, acceptGzip bool) outcome {
 	return getWithin(addr, id, xff, acceptGzip, wedgeAfter)
 }
 
 // getWithin is get with an explicit limit after which the call counts as not ended.
 func getWithin(addr, id, xff string, acceptGzip bool, limit time.Duration) outcome {
+	return exchange(addr, id, xff, shapeOf("get", 0), acceptGzip, limit, complete)
+}
+
+// wsKey is the Sec-WebSocket-Key of the generated opening handshakes (the sample nonce of RFC 6455).
+const wsKey = "dGhlIHNhbXBsZSBub25jZQ=="
+
+func wsAccept(key string) string {
+	h := sha1.Sum([]byte(key + "258EAFA5-E914-47DA-95CA-C5AB0DC85B11"))
+	return base64.StdEncoding.EncodeToString(h[:])
+}
+
+var postBody = noise(2000)
+
+// reqShape is the wire form of one client request (request kind x position k in the burst).
+type reqShape struct {
+	kind    string
+	method  string
+	extra   string // additional header field lines
+	body    []byte // nil = no body
+	chunked bool   // body framing: chunked instead of Content-Length
+	expect  bool   // Expect: 100-continue
+	wait100 bool   // ... and the client waits up to 1.5 s for the interim response before it sends the body
+	upgrade string // protocol the request asks to switch to ("" = none)
+}
+
+func shapeOf(kind string, k int) reqShape {
+	sh := reqShape{kind: kindOf(kind), method: "GET"}
+	switch sh.kind {
+	case "post-cl":
+		sh.method, sh.body = "POST", postBody
+	case "post-chunked":
+		sh.method, sh.body, sh.chunked = "POST", postBody, true
+	case "head":
+		sh.method = "HEAD"
+	case "upgrade-websocket":
+		sh.upgrade = "websocket"
+		sh.extra = "Connection: Upgrade\r\nUpgrade: websocket\r\nSec-WebSocket-Key: " + wsKey + "\r\nSec-WebSocket-Version: 13\r\n"
+	case "upgrade-h2c":
+		sh.upgrade = "h2c"
+		sh.extra = "Connection: Upgrade, HTTP2-Settings\r\nUpgrade: h2c\r\nHTTP2-Settings: AAMAAABkAAQCAAAAAAIAAAAA\r\n"
+	case "expect-continue":
+		sh.method, sh.body, sh.chunked, sh.expect, sh.wait100 = "POST", postBody, k%2 == 1, true, (k/2)%2 == 0
+		sh.extra = "Expect: 100-continue\r\n"
+	}
+	return sh
+}
+
+type callMode int
+
+const (
+	complete      callMode = iota // send the whole request, read the whole response
+	abortUpload                   // declare a 100000-byte body, send 1000 bytes of it and disconnect
+	abortDownload                 // read the response head and up to 1000 body bytes, then disconnect
+)
+
+func closedOutcome(start time.Time, what string, err error) outcome {
+	return outcome{Ended: !isTimeout(err), Elapsed: time.Since(start), Detail: what + ": " + err.Error()}
+}
+
+// exchange performs one client call of the given shape on a fresh connection and waits for its end:
+// a final HTTP response read completely, a 101 (the client then closes the tunnel), a closed or
+// reset connection, or - in the two abort modes - the client's own disconnect.
+func exchange(addr, id, xff string, sh reqShape, acceptGzip bool, limit time.Duration, mode callMode) outcome {
 	start := time.Now()
 	c, o := dial(addr, start, limit)
 	if o != nil {
 		return *o
 	}
 	defer reset(c)
-	extra := ""
+	extra, body, declared := sh.extra, sh.body, len(sh.body)
 	if acceptGzip {
-		extra = "Accept-Encoding: gzip\r\n"
+		extra += "Accept-Encoding: gzip\r\n"
 	}
-	if _, err := c.Write([]byte(head("GET", id, xff, extra))); err != nil {
+	if mode == abortUpload {
+		if body == nil { // a bodiless kind: the aborted upload is a POST that keeps the kind's other fields
+			sh.method = "POST"
+		}
+		body, declared = make([]byte, 1000), 100000
+	}
+	if body != nil {
+		if sh.chunked {
+			extra += "Transfer-Encoding: chunked\r\n"
+		} else {
+			extra += fmt.Sprintf("Content-Length: %d\r\n", declared)
+		}
+	}
+	if _, err := c.Write([]byte(head(sh.method, id, xff, extra))); err != nil {
 		return outcome{Ended: true, Elapsed: time.Since(start), Detail: "write: " + err.Error()}
 	}
-	resp, err := http.ReadResponse(bufio.NewReader(c), &http.Request{Method: "GET"})
-	if err != nil {
-		return outcome{Ended: !isTimeout(err), Elapsed: time.Since(start), Detail: "no response head: " + err.Error()}
+	br := bufio.NewReader(c)
+	req := &http.Request{Method: sh.method}
+	var final *http.Response
+	saw100 := false
+	if body != nil && sh.expect && sh.wait100 {
+		// wait for "100 Continue" (or a final response sent without reading the body); after 1.5 s send the body anyway (RFC 9110 10.1.1)
+		_ = c.SetReadDeadline(time.Now().Add(1500 * time.Millisecond))
+		_, err := br.Peek(1)
+		_ = c.SetReadDeadline(start.Add(limit))
+		if err == nil {
+			resp, err := http.ReadResponse(br, req)
+			if err != nil {
+				return closedOutcome(start, "no response head", err)
+			}
+			if saw100 = resp.StatusCode == 100; !saw100 {
+				final = resp
+			}
+		} else if !isTimeout(err) {
+			return outcome{Ended: true, Elapsed: time.Since(start), Detail: "closed while waiting for 100 Continue: " + err.Error()}
+		}
 	}
-	body, err := io.ReadAll(resp.Body)
-	out := outcome{Ended: true, Status: resp.StatusCode, Elapsed: time.Since(start)}
+	if final == nil && body != nil {
+		// write errors are not an end by themselves: the proxy may have answered and closed without reading the body
+		if sh.chunked {
+			_, _ = fmt.Fprintf(c, "%x\r\n%s\r\n", len(body), body)
+			if mode != abortUpload {
+				_, _ = c.Write([]byte("0\r\n\r\n"))
+			}
+		} else {
+			_, _ = c.Write(body)
+		}
+	}
+	if mode == abortUpload {
+		if final != nil {
+			return outcome{Ended: true, Status: final.StatusCode, Elapsed: time.Since(start), Detail: "answered before the body was sent"}
+		}
+		time.Sleep(3 * time.Millisecond)
+		return outcome{Ended: true, Elapsed: time.Since(start), Detail: "client aborted its upload"}
+	}
+	for final == nil {
+		resp, err := http.ReadResponse(br, req)
+		if err != nil {
+			return closedOutcome(start, "no response head", err)
+		}
+		if resp.StatusCode >= 200 || resp.StatusCode == http.StatusSwitchingProtocols {
+			final = resp
+		}
+		saw100 = saw100 || resp.StatusCode == 100
+	}
+	if final.StatusCode == http.StatusSwitchingProtocols {
+		// the tunnel is up; the client ends it (a WebSocket client sends a masked Close frame first)
+		if sh.upgrade == "websocket" {
+			_, _ = c.Write([]byte{0x88, 0x80, 0x01, 0x02, 0x03, 0x04})
+		}
+		return outcome{Ended: true, Status: 101, Elapsed: time.Since(start), Detail: "tunnel closed by the client"}
+	}
+	if mode == abortDownload {
+		buf := make([]byte, 1000)
+		if _, err := io.ReadFull(final.Body, buf); err != nil && isTimeout(err) {
+			return outcome{Ended: false, Elapsed: time.Since(start), Detail: "response body stalled"}
+		}
+		return outcome{Ended: true, Elapsed: time.Since(start), Detail: fmt.Sprintf("client aborted its download (status %d)", final.StatusCode)}
+	}
+	rbody, err := io.ReadAll(final.Body)
+	out := outcome{Ended: true, Status: final.StatusCode, Elapsed: time.Since(start), Saw100: saw100}
 	if err != nil {
 		// response head received, body cut short: the call ended with a closed connection
 		out.Ended = !isTimeout(err)
-		out.Detail = fmt.Sprintf("status %d then body error after %d bytes: %v", resp.StatusCode, len(body), err)
+		out.Detail = fmt.Sprintf("status %d then body error after %d bytes: %v", final.StatusCode, len(rbody), err)
 		out.Status = 0
 		return out
 	}
-	out.Body = string(body[:min(len(body), 160)])
+	out.Body = string(rbody[:min(len(rbody), 160)])
 	switch {
-	case strings.HasPrefix(string(body), "good-backend"):
+	case strings.HasPrefix(string(rbody), "good-backend"):
 		out.Served = "good"
-	case strings.HasPrefix(string(body), "faulty-backend"):
+	case strings.HasPrefix(string(rbody), "faulty-backend"):
 		out.Served = "faulty"
 	}
 	return out
 }
 
-// abortUpload declares a 100000-byte body, sends 1000 bytes of it and disconnects.
-func abortUpload(addr, id, xff string, chunked bool) outcome {
-	start := time.Now()
-	c, o := dial(addr, start, wedgeAfter)
-	if o != nil {
-		return *o
-	}
-	if chunked {
-		_, _ = c.Write([]byte(head("POST", id, xff, "Transfer-Encoding: chunked\r\n")))
-		_, _ = fmt.Fprintf(c, "%x\r\n%s\r\n", 1000, make([]byte, 1000))
-	} else {
-		_, _ = c.Write([]byte(head("POST", id, xff, "Content-Length: 100000\r\n")))
-		_, _ = c.Write(make([]byte, 1000))
-	}
-	time.Sleep(3 * time.Millisecond)
-	reset(c)
-	return outcome{Ended: true, Elapsed: time.Since(start), Detail: "client aborted its upload"}
-}
-
-// abortDownload reads the response head and up to 1000 body bytes, then disconnects.
-func abortDownload(addr, id, xff string) outcome {
-	start := time.Now()
-	c, o := dial(addr, start, wedgeAfter)
-	if o != nil {
-		return *o
-	}
-	defer reset(c)
-	if _, err := c.Write([]byte(head("GET", id, xff, "Accept-Encoding: gzip\r\n"))); err != nil {
-		return outcome{Ended: true, Elapsed: time.Since(start), Detail: "write: " + err.Error()}
-	}
-	resp, err := http.ReadResponse(bufio.NewReader(c), &http.Request{Method: "GET"})
-	if err != nil {
-		return outcome{Ended: !isTimeout(err), Elapsed: time.Since(start), Detail: "no response head: " + err.Error()}
-	}
-	buf := make([]byte, 1000)
-	_, err = io.ReadFull(resp.Body, buf)
-	if err != nil && isTimeout(err) {
-		return outcome{Ended: false, Elapsed: time.Since(start), Detail: "response body stalled"}
-	}
-	return outcome{Ended: true, Elapsed: time.Since(start), Detail: fmt.Sprintf("client aborted its download (status %d)", resp.StatusCode)}
-}
-
 // KeyBodyStall is the known finding "a backend that stalls mid-body holds the request forever".
 const KeyBodyStall = "backend-body-stall-unbounded"
+
+// KeyUpgradeStall is the finding "the handler timeout is not applied to a request that carries an
+// Upgrade field, so a backend that answers it with an ordinary response and stalls mid-body holds it
+// forever". Excluded region while the entry is open: for requests carrying an Upgrade field the
+// slow-body fault is played as the 3 s trickle only.
+const KeyUpgradeStall = "upgrade-request-body-stall-unbounded"
+
+// stalls tells whether the stalling variant of slow-body is played for a request of this shape.
+func stalls(sh reqShape) bool {
+	if lab.Open(KeyBodyStall) {
+		return false
+	}
+	return !(sh.upgrade != "" && lab.Open(KeyUpgradeStall))
+}
 
 // ---------------------------------------------------------------------------------------------
 // Scripts
@@ -182,7 +292,30 @@ const KeyBodyStall = "backend-body-stall-unbounded"
 var textPlain = []lab.KV{{K: "Content-Type", V: "text/plain"}}
 
 func okScript(who string) *lab.RespScript {
-	return &lab.RespScript{Status: 200, Framing: "cl", Body: []byte(who + "-backend ok"), BarrierAfter: -1, Header: textPlain}
+	return &lab.RespScript{Status: 200, Framing: "cl", Body: []byte(who + "-backend ok"), BarrierAfter: -1, Header: textPlain, Continue100: true}
+}
+
+// switchScript is the other legitimate answer of a well-behaved backend to an upgrade request:
+// 101 Switching Protocols; the connection is a tunnel from then on (the client closes it).
+func switchScript(proto string) *lab.RespScript {
+	h := []lab.KV{{K: "Connection", V: "Upgrade"}, {K: "Upgrade", V: proto}}
+	if proto == "websocket" {
+		h = append(h, lab.KV{K: "Sec-WebSocket-Accept", V: wsAccept(wsKey)})
+	}
+	return &lab.RespScript{Status: 101, Framing: "none", BarrierAfter: -1, Header: h}
+}
+
+// wellBehaved is what a backend that is not the target of a backend fault plays for request k of a
+// burst: 200 with a small body; for the upgrade kinds requests 0, 1, 4, 5 of a burst are answered 101
+// instead; under client-abort-download the 1 MiB download.
+func wellBehaved(who, fault string, sh reqShape, k int) *lab.RespScript {
+	switch {
+	case fault == "client-abort-download":
+		return downloadScript()
+	case sh.upgrade != "" && (k/2)%2 == 0:
+		return switchScript(sh.upgrade)
+	}
+	return okScript(who)
 }
 
 // noise is a deterministic incompressible byte string (xorshift), so that the gzip plugin cannot
@@ -218,8 +351,10 @@ func faultScript(fault string, k int, stall bool) *lab.RespScript {
 	case "refuse":
 		// new connections are reset by Refuse(true); a request arriving on a pooled connection is reset too
 		s.Fault = "reset-before-headers"
+		s.Continue100 = false
 	case "hang-headers":
 		s.Fault = "hang-before-headers"
+		s.Continue100 = false // a backend that hangs before its response head sends no interim response either
 	case "reset-after-headers":
 		s.Body = make([]byte, 1000)
 		s.Fault = "reset-after-headers"
@@ -228,6 +363,7 @@ func faultScript(fault string, k int, stall bool) *lab.RespScript {
 		s.Fault = "short-body"
 	case "garbage":
 		s.Fault = "garbage"
+		s.Continue100 = false
 	case "5xx":
 		s.Status = []int{500, 503, 502, 504}[k%4]
 		s.Body = []byte("boom")
@@ -247,7 +383,7 @@ func faultScript(fault string, k int, stall bool) *lab.RespScript {
 }
 
 func downloadScript() *lab.RespScript {
-	return &lab.RespScript{Status: 200, Framing: "cl", Body: bigBody, Parts: parts(16, 64<<10), Fault: "slow-body", BarrierAfter: -1, Header: textPlain}
+	return &lab.RespScript{Status: 200, Framing: "cl", Body: bigBody, Parts: parts(16, 64<<10), Fault: "slow-body", BarrierAfter: -1, Header: textPlain, Continue100: true}
 }
 
 // ---------------------------------------------------------------------------------------------
@@ -466,19 +602,26 @@ func (w *world) runStepOpt(run, idx int, s Step, opt stepOpt) (string, []outcome
 		exFault *lab.Exchange
 	}
 	regs := make([]reg, n)
+	shapes := make([]reqShape, n)
 	for k := range regs {
 		id := w.nextID()
-		var gs *lab.RespScript
-		switch s.Fault {
-		case "client-abort-download":
-			gs = downloadScript()
-		default:
-			gs = okScript("good")
+		shapes[k] = shapeOf(s.Kind, k)
+		if s.Fault == "client-abort-upload" && shapes[k].body == nil {
+			shapes[k].chunked = k%2 == 1
+		}
+		// the backend that is not the target plays the well-behaved answer; so does FAULTY under the
+		// two client faults (there the client is the one that misbehaves)
+		gs, fs := wellBehaved("good", s.Fault, shapes[k], k), faultScript(s.Fault, k, stalls(shapes[k]))
+		if abortFault(s.Fault) {
+			fs = wellBehaved("faulty", s.Fault, shapes[k], k)
 		}
 		if opt.both {
-			gs = faultScript(s.Fault, k, !lab.Open(KeyBodyStall))
+			gs = faultScript(s.Fault, k, stalls(shapes[k]))
+			if abortFault(s.Fault) {
+				gs = wellBehaved("faulty", s.Fault, shapes[k], k)
+			}
 		}
-		regs[k] = reg{id, w.good.Expect(id, gs), w.faulty.Expect(id, faultScript(s.Fault, k, !lab.Open(KeyBodyStall)))}
+		regs[k] = reg{id, w.good.Expect(id, gs), w.faulty.Expect(id, fs)}
 	}
 	faultyBefore, goodBefore := w.faulty.Accepts(), w.good.Accepts()
 	if s.Fault == "refuse" {
@@ -492,11 +635,11 @@ func (w *world) runStepOpt(run, idx int, s Step, opt stepOpt) (string, []outcome
 		xff := w.pickXFF(k)
 		switch s.Fault {
 		case "client-abort-upload":
-			outs[k] = abortUpload(w.proxy, regs[k].id, xff, k%2 == 1)
+			outs[k] = exchange(w.proxy, regs[k].id, xff, shapes[k], false, wedgeAfter, abortUpload)
 		case "client-abort-download":
-			outs[k] = abortDownload(w.proxy, regs[k].id, xff)
+			outs[k] = exchange(w.proxy, regs[k].id, xff, shapes[k], true, wedgeAfter, abortDownload)
 		default:
-			outs[k] = get(w.proxy, regs[k].id, xff, k%2 == 0)
+			outs[k] = exchange(w.proxy, regs[k].id, xff, shapes[k], k%2 == 0, wedgeAfter, complete)
 		}
 	}
 	if s.Concurrent > 0 {
@@ -543,7 +686,8 @@ func (w *world) runStepOpt(run, idx int, s Step, opt stepOpt) (string, []outcome
 	} else {
 		w.label("not-delivered:" + s.Fault)
 	}
-	where := fmt.Sprintf("run %d step %d (%s, %s)", run, idx, s.Fault, map[bool]string{true: "concurrent", false: "sequential"}[s.Concurrent > 0])
+	where := fmt.Sprintf("run %d step %d (%s on %s requests, %s)", run, idx, s.Fault, kindOf(s.Kind), map[bool]string{true: "concurrent", false: "sequential"}[s.Concurrent > 0])
+	bound := w.c.Cfg.endBound()
 	for k, o := range outs {
 		switch {
 		case o.Status == 0:
@@ -551,11 +695,14 @@ func (w *world) runStepOpt(run, idx int, s Step, opt stepOpt) (string, []outcome
 		default:
 			w.label(fmt.Sprintf("ends:%d", o.Status))
 		}
+		if o.Saw100 {
+			w.label("interim:100-continue")
+		}
 		if !o.Ended {
 			return fmt.Sprintf("(i) wedged: %s request %d had neither a response nor a closed connection %v after it was sent: %s; all calls of the step: %v", where, k, wedgeAfter, o.Detail, outs), outs
 		}
-		if o.Elapsed > endBound {
-			return fmt.Sprintf("(i) late: %s request %d ended only after %v, bound 2*(read+write+backend_dial+backend_read)+2 s = %v; all calls of the step: %v", where, k, o.Elapsed.Round(time.Millisecond), endBound, outs), outs
+		if o.Elapsed > bound {
+			return fmt.Sprintf("(i) late: %s request %d ended only after %v, bound 2*(read+write+backend_dial+backend_read)+2 s = %v; all calls of the step: %v", where, k, o.Elapsed.Round(time.Millisecond), bound, outs), outs
 		}
 	}
 	return "", outs
@@ -631,6 +778,7 @@ func (w *world) hammer(run int, c Case) string {
 	defer w.faulty.Fallback(okScript("faulty"))
 	defer w.good.Fallback(okScript("good"))
 	end := time.Now().Add(time.Duration(c.Seconds) * time.Second)
+	bound := c.Cfg.endBound()
 	var mu sync.Mutex
 	counts := map[int]int{}
 	var viol atomic.Value
@@ -681,8 +829,8 @@ func (w *world) hammer(run int, c Case) string {
 		switch {
 		case err != nil && isTimeout(err):
 			fail(fmt.Sprintf("(i) wedged: run %d client %d request %d of the concurrent burst had neither a response nor a closed connection %v after it was sent (%v)", run, cl.g, cl.n, wedgeAfter, err))
-		case el > endBound:
-			fail(fmt.Sprintf("(i) late: run %d client %d request %d of the concurrent burst ended only after %v, bound %v", run, cl.g, cl.n, el.Round(time.Millisecond), endBound))
+		case el > bound:
+			fail(fmt.Sprintf("(i) late: run %d client %d request %d of the concurrent burst ended only after %v, bound %v", run, cl.g, cl.n, el.Round(time.Millisecond), bound))
 		case err != nil:
 			cl.tally[0]++
 			reset(cl.conn)
@@ -1033,7 +1181,7 @@ func RunCase(t testing.TB, c Case) Result {
 // followed by clauses (ii)-(iv).
 // labSlots bounds the number of labs (helios process + 2 raw backends + clients) a shard runs at the
 // same time, across all sub-checks (the test functions run in parallel).
-var labSlots = make(chan struct{}, lab.Scale(20, 12))
+var labSlots = make(chan struct{}, lab.Scale(40, 16))
 
 // burstSlots: one window-expiry lab per shard at a time (its clients and the backends behind them
 // are the only CPU-heavy part of this package; more of them at once starve the timing of all labs).
